@@ -8,7 +8,7 @@ from harness import gen
 from harness.framework import CaseTimeout, Suite
 
 PID = "C09"
-LEAN_MODS = ["SwcVerif.Props.C09", "SwcVerif.Props.C09Gen"]
+LEAN_MODS = ["SwcVerif.Props.C09", "SwcVerif.Props.C09Gen", "SwcVerif.Props.C09Helpers"]
 # Gen/AlgoViews.lean is regenerated on every run from node.py / path.py / tree.py / branch.py / compartment.py / swc.py (harness/algo_specs/70_views.py)
 TRANSLATE_ALGO = ["AlgoViews", "AlgoHelpers"]
 DRIVER_FILES = ["SwcVerif/Model/AlgoRunViews.lean", "SwcVerif/Model/PyViews.lean", "SwcVerif/Gen/AlgoViews.lean", "SwcVerif/Model/AlgoRunHelpers.lean", "SwcVerif/Gen/AlgoHelpers.lean"]
@@ -20,6 +20,9 @@ THEOREMS = [
     "C09.generated_path_getitem_slice", "C09.generated_tree_getitem_slice", "C09.generated_node_write_through",
     "C09.generated_write_then_view_read", "C09.generated_path_node_write_lost", "C09.generated_detach", "C09.generated_copy",
     "C09.generated_branch_segments", "C09.generated_tree_segments",
+    # the remaining object helpers (Gen/AlgoHelpers.lean; proofs in Refine/Helpers.lean, T41)
+    "C09.generated_get_node", "C09.generated_path_iter", "C09.generated_iter_live", "C09.generated_branch_detach",
+    "C09.generated_branch_detach_agrees", "C09.generated_compartment_detach",
 ]
 TRUSTED = ["imperative translator harness/translate_algo.py + the hooks and glue listed at the top of harness/algo_specs/70_views.py + Model/Py.lean / PyViews.lean "
            "(slice.indices, range, fancy indexing), cross-checked by running every generated definition on the c09.history histories (gviews / gslice); "
